@@ -26,6 +26,7 @@ Next ==
                     /\ ANewHet(cls, dd \div 10, da, dk, dx1, IF Sq(cls) THEN hist[1].a.ci + 3 * s ELSE s)
     \/ n = 2 /\ (\/ (IsFeat(heap[2]) /\ \E N \in {1, 2} : AFeatCondOnX(2, N, 0))
                  \/ (IsHet(heap[2]) /\ \E N \in {1, 3} : AHetCondOnX(2, N, 0))
+                 \/ (heap[2].cls = "HetStep" /\ HDa(heap[2]) = HDy(heap[2]) /\ \E s \in {0, 1} : AHetIntLogCondY(2, 1, s))
                  \/ \E k \in {"marginal", "joint", "conditional"} :
                        IF IsFeat(heap[2]) THEN AFeatTransform(k, 2, 1) ELSE AHetTransform(k, 2, 1))
 
